@@ -39,6 +39,7 @@ type StepSpec struct {
 	Op        string   `json:"op"`        // create|modify|delete
 	Sub       *Scn     `json:"sub,omitempty"`       // this step's evidence by SubSigner is a layout
 	SubSigner string   `json:"subsigner,omitempty"` //
+	SubSigner2 string  `json:"subsigner2,omitempty"` // a second functionary delivering the SAME sublayout document, with his own link directory
 }
 
 type InspSpec struct {
@@ -85,8 +86,11 @@ func sha(s string) string { h := sha256.Sum256([]byte(s)); return hex.EncodeToSt
 var curAlg = "sha256" // digest algorithm of the links being written (set by materialise from Scn.HashAlg)
 
 func hobj(content string) intoto.HashObj {
-	if curAlg == "sha512" {
+	if curAlg == "sha512" || curAlg == "both" {
 		h := sha512.Sum512([]byte(content))
+		if curAlg == "both" {
+			return intoto.HashObj{"sha256": sha(content), "sha512": hex.EncodeToString(h[:])}
+		}
 		return intoto.HashObj{"sha512": hex.EncodeToString(h[:])}
 	}
 	return intoto.HashObj{"sha256": sha(content)}
@@ -166,6 +170,14 @@ func buildLayout(sc *Scn, runDirPrefix string) intoto.Layout {
 			s.ExpectedProducts = append(s.ExpectedProducts, []string{"DELETE", markerize("src/b.c", sc.Params)})
 		}
 		s.ExpectedProducts = append(s.ExpectedProducts, []string{"MATCH", "*", "WITH", "MATERIALS", "FROM", st.Name}, []string{"DISALLOW", "*"})
+		if sc.Defect == "case-variant-rule-earlier" {
+			// harmless rules (no such files) that differ from the inspection's DISALLOW only in letter case
+			up := strings.ToUpper(runDirPrefix)
+			if up != "" {
+				up += "/"
+			}
+			s.ExpectedMaterials = append([][]string{{"DISALLOW", "STAMP.TXT"}, {"DISALLOW", up + "STAMP.TXT"}, {"disallow", "Stamp.Txt"}}, s.ExpectedMaterials...)
+		}
 		if sc.Permissive {
 			s.ExpectedMaterials = [][]string{{"ALLOW", "*"}}
 			s.ExpectedProducts = [][]string{{"ALLOW", "*"}}
@@ -210,6 +222,14 @@ func buildLayout(sc *Scn, runDirPrefix string) intoto.Layout {
 			}
 			x.ExpectedMaterials = [][]string{esc, {"DISALLOW", pre + `stamp\.txt`}, {"ALLOW", "*"}}
 			x.ExpectedProducts = [][]string{esc, {"DISALLOW", pre + `stamp\.txt`}, {"ALLOW", "*"}}
+		}
+		if sc.Defect == "case-variant-rule-earlier" {
+			mm := []string{"MATCH", "stamp.txt", "WITH", "PRODUCTS", "FROM", last}
+			if runDirPrefix != "" {
+				mm = []string{"MATCH", "stamp.txt", "IN", runDirPrefix, "WITH", "PRODUCTS", "FROM", last}
+			}
+			x.ExpectedMaterials = [][]string{mm, {"DISALLOW", pre + "stamp.txt"}, {"ALLOW", "*"}}
+			x.ExpectedProducts = [][]string{mm, {"DISALLOW", pre + "stamp.txt"}, {"ALLOW", "*"}}
 		}
 		if sc.InspPermissive {
 			x.ExpectedMaterials = [][]string{{"ALLOW", "*"}}
@@ -326,7 +346,7 @@ func writeChain(sc *Scn, dir string, start map[string]string, r *lib.Rng) built 
 		}
 		for _, who := range st.Signers {
 			kp := pk(who)
-			if st.Sub != nil && who == st.SubSigner {
+			if st.Sub != nil && (who == st.SubSigner || who == st.SubSigner2) {
 				// evidence is a layout: file <step>.<keyid8>.link holds the sublayout, links in <step>.<keyid8>/
 				sub := st.Sub
 				subDir := filepath.Join(dir, fmt.Sprintf(intoto.SublayoutLinkDirFormat, st.Name, kp.Pub.KeyID))
@@ -372,7 +392,7 @@ func writeChainTo(sc *Scn, dir string, from, to map[string]string, r *lib.Rng) b
 		}
 		for _, who := range st.Signers {
 			kp := pk(who)
-			if st.Sub != nil && who == st.SubSigner {
+			if st.Sub != nil && (who == st.SubSigner || who == st.SubSigner2) {
 				sub := st.Sub
 				subDir := filepath.Join(dir, fmt.Sprintf(intoto.SublayoutLinkDirFormat, st.Name, kp.Pub.KeyID))
 				sl := buildSubLayout(sub)
@@ -504,17 +524,24 @@ var defects = map[string][]string{
 		"junk-uncounted-badsig", "junk-uncounted-unauthorised", "extra-agreeing-link", "byproducts-differ",
 		"threshold1-disagree-product-digest", "threshold1-disagree-algorithm", "threshold1-agree",
 		"permissive-disagree-algorithm", "permissive-disagree-algorithm-material", "permissive-disagree-product-digest", "permissive-none",
-		"insp-named-like-last-step", "insp-named-like-first-step", "permissive-unclean-paths"},
+		"insp-named-like-last-step", "insp-named-like-first-step", "permissive-unclean-paths",
+		"permissive-sub-beside-link-disagree", "permissive-sub-beside-link-agree", "permissive-twin-sublayouts-disagree", "permissive-twin-sublayouts-agree"},
 	"c06": {"none", "expired-long", "expired-2s", "future-1h", "garbage", "empty", "rfc3339-offset", "date-only", "year-9999", "fraction", "lowercase"},
 	"c08": {"sub-insp-named-like-first-step", "sub-insp-named-like-last-step", "sub-defective-beside-good-link", "sub-ok", "sub-ok", "sub-badsig", "sub-expired", "sub-missing-link", "sub-rule-violation", "sub-unauthorised", "sub-nested", "sub-nested-defect", "sub-summary-mismatch"},
-	"c10": {"history-same-params", "history-diff-params", "history-no-params", "history-mixed", "mixed-cert-key", "mixed-cert-key", "mixed-cert-key-unsorted", "summary-byproducts", "direct-unclean"},
-	"c09": {"sha512-chain-product-modified", "escaped-pattern-product-modified", "escaped-pattern-none", "insp-rewrite-same-mtime", "product-all-removed", "require-after-consume", "none", "insp-fail", "insp-fail-255", "insp-missing", "insp-empty", "product-modified", "product-added", "product-removed",
+	"c10": {"history-same-params", "history-diff-params", "history-no-params", "history-mixed", "mixed-cert-key", "mixed-cert-key", "mixed-cert-key-unsorted", "summary-byproducts", "direct-unclean",
+		"history-multi-alg", "history-multi-alg-mismatch"},
+	"c09": {"case-variant-rule-earlier", "product-modified-backslash-decoy", "sha512-chain-product-modified", "escaped-pattern-product-modified", "escaped-pattern-none", "insp-rewrite-same-mtime", "product-all-removed", "require-after-consume", "none", "insp-fail", "insp-fail-255", "insp-missing", "insp-empty", "product-modified", "product-added", "product-removed",
 		"insp-touch-allowed", "insp-touch-disallowed", "three-inspections", "second-fails"},
 }
 
-func genScenario(r *lib.Rng, focus string) *Scn {
+// genScenario: the first len(catalogue) scenarios of a run take the classes in catalogue order (every class at least
+// once per run, whatever the seed), the rest draw at random
+func genScenario(r *lib.Rng, focus string, idx int) *Scn {
 	sc := baseScenario(r, focus, 0)
 	d := defects[focus][r.Intn(len(defects[focus]))]
+	if cat := distinct(defects[focus]); idx < len(cat) {
+		d = cat[idx]
+	}
 	sc.Defect = d
 	sc.Klass = focus + "/" + d
 	needTwo := func(i int) {
@@ -560,6 +587,9 @@ func genScenario(r *lib.Rng, focus string) *Scn {
 			sc.Owners = sc.Owners[:1]
 			sc.Verifiers = append([]string{}, sc.Owners...)
 			sc.Expect = "reject"
+		case "case-variant-member-evil-first", "case-variant-member-evil-last":
+			sc.Expect = ""
+			sc.ForbidLog = []string{"EVIL"}
 		case "verifier-plus-one":
 			for _, p := range pool {
 				if !contains(sc.Owners, p) {
@@ -610,6 +640,23 @@ func genScenario(r *lib.Rng, focus string) *Scn {
 			sc.ExpectLog = []string{"insp0", name}
 			sc.ExtraFinal = map[string]string{"NOTES.txt": "not reported by any step\n"}
 		}
+		if strings.Contains(d, "-sub-beside-link-") || strings.Contains(d, "-twin-sublayouts-") {
+			// the two counted pieces of evidence of the step are a plain link and a sublayout (or the same sublayout
+			// document delivered by two functionaries, each with his own link directory): the summary of a sublayout
+			// counts like a link and must agree with the other evidence. Rules are permissive, so only the agreement decides.
+			st := &sc.Steps[i]
+			sub := baseScenario(r, focus, 1)
+			sub.Insps, sub.Entry, sub.Params = nil, "plain", nil
+			sub.Defect = d
+			st.SubSigner = st.Signers[1]
+			sub.Owners = []string{st.SubSigner}
+			if strings.Contains(d, "-twin-sublayouts-") {
+				st.SubSigner2 = st.Signers[0]
+				sub.Owners = []string{st.Signers[0], st.Signers[1]}
+			}
+			st.Sub = sub
+			sc.Params = nil
+		}
 		if strings.HasPrefix(d, "threshold1-") {
 			// more counted links than the threshold requires: they must still all agree
 			sc.Steps[i].Threshold = 1
@@ -629,7 +676,8 @@ func genScenario(r *lib.Rng, focus string) *Scn {
 		}
 		switch d {
 		case "none", "junk-uncounted-badsig", "junk-uncounted-unauthorised", "extra-agreeing-link", "byproducts-differ", "threshold1-agree", "permissive-none",
-			"insp-named-like-last-step", "insp-named-like-first-step", "permissive-unclean-paths":
+			"insp-named-like-last-step", "insp-named-like-first-step", "permissive-unclean-paths",
+			"permissive-sub-beside-link-agree", "permissive-twin-sublayouts-agree":
 		default:
 			sc.Expect = "reject"
 		}
@@ -785,6 +833,19 @@ func genScenario(r *lib.Rng, focus string) *Scn {
 			sc.CertStep = i + 1
 			sc.Reps = 24
 			sc.History = []map[string]string{sc.Params, sc.Params}
+		case "history-multi-alg", "history-multi-alg-mismatch":
+			// every artifact is recorded with sha256 AND sha512; in the mismatch class one material of the second step
+			// agrees with the first step's product in sha256 but not in sha512: MATCH must not consume it, DISALLOW rejects
+			sc.HashAlg = "both"
+			sc.Insps, sc.ExpectLog, sc.Params = nil, nil, nil
+			for len(sc.Steps) < 2 {
+				sc.Steps = append(sc.Steps, StepSpec{Name: fmt.Sprintf("s0_%d", len(sc.Steps)), Keys: []string{pool[0]}, Threshold: 1, Signers: []string{pool[0]}, Op: "create"})
+			}
+			sc.Reps = 24
+			sc.History = []map[string]string{nil, nil}
+			if d == "history-multi-alg-mismatch" {
+				sc.Expect = "reject"
+			}
 		case "summary-byproducts":
 			i := len(sc.Steps) - 1
 			needTwo(i)
@@ -833,6 +894,15 @@ func genScenario(r *lib.Rng, focus string) *Scn {
 			sc.Expect = "reject"
 		case "escaped-pattern-none":
 			sc.Insps = []InspSpec{{Name: "insp0", Kind: "log"}}
+		case "case-variant-rule-earlier":
+			// an earlier rule of the same type whose pattern differs only in letter case (patterns are case-sensitive)
+			sc.Insps = []InspSpec{{Name: "insp0", Kind: "log"}}
+			sc.Expect = "reject"
+		case "product-modified-backslash-decoy":
+			// src/a.c was modified after the last step; a decoy file whose NAME contains a backslash ("src\a.c", an
+			// ordinary file name on Unix) holds the original bytes
+			sc.Insps = []InspSpec{{Name: "insp0", Kind: "log"}}
+			sc.Expect = "reject"
 		case "require-after-consume":
 			sc.Insps = []InspSpec{{Name: "insp0", Kind: "log"}}
 			sc.Expect = "reject"
@@ -853,6 +923,18 @@ func genScenario(r *lib.Rng, focus string) *Scn {
 		}
 	}
 	return sc
+}
+
+func distinct(xs []string) []string {
+	seen := map[string]bool{}
+	var out []string
+	for _, x := range xs {
+		if !seen[x] {
+			seen[x] = true
+			out = append(out, x)
+		}
+	}
+	return out
 }
 
 // kindSame: both names denote keys of the same type (so that a key id label can be moved between them plausibly)
@@ -946,8 +1028,11 @@ func materialise(sc *Scn, root string, r *lib.Rng) *world {
 		delete(final, "README")
 	case "product-all-removed":
 		final = map[string]string{}
-	case "sha512-chain-product-modified", "escaped-pattern-product-modified":
+	case "sha512-chain-product-modified", "escaped-pattern-product-modified", "case-variant-rule-earlier":
 		final["stamp.txt"] = "EVIL"
+	case "product-modified-backslash-decoy":
+		final["src\\a.c"] = final["src/a.c"]
+		final["src/a.c"] = final["src/a.c"] + "// tampered"
 	}
 	for p, c := range sc.ExtraFinal {
 		final[p] = c
@@ -977,6 +1062,34 @@ func whichLink(sc *Scn) int {
 func applyLinkDefects(sc *Scn, w *world, r *lib.Rng) {
 	if sc.Focus == "c08" {
 		applySubDefects(sc, w)
+		return
+	}
+	if sc.Defect == "history-multi-alg-mismatch" {
+		st := sc.Steps[1]
+		for _, who := range st.Signers {
+			kp := pk(who)
+			fp := filepath.Join(w.linkDir, linkFile(st.Name, kp.Pub.KeyID))
+			m, err := intoto.LoadMetadata(fp)
+			must(err)
+			l := m.GetPayload().(intoto.Link)
+			ks := lib.SortedKeys(l.Materials)
+			k := ks[len(ks)-1]
+			l.Materials[k] = intoto.HashObj{"sha256": l.Materials[k]["sha256"], "sha512": strings.Repeat("0", 128)}
+			m2 := wrap(sc, l)
+			mustSign(m2, kp.Priv)
+			must(m2.Dump(fp))
+		}
+		return
+	}
+	if strings.HasSuffix(sc.Defect, "-sub-beside-link-disagree") {
+		applySubDefectKind(sc, w, "sub-summary-mismatch", false)
+		return
+	}
+	if strings.HasSuffix(sc.Defect, "-twin-sublayouts-disagree") {
+		applySubDefectKind(sc, w, "sub-summary-mismatch", true)
+		return
+	}
+	if strings.Contains(sc.Defect, "-sub-beside-link-") || strings.Contains(sc.Defect, "-twin-sublayouts-") {
 		return
 	}
 	if sc.Focus == "c10" && sc.Defect == "summary-byproducts" {
@@ -1091,16 +1204,22 @@ func applyLinkDefects(sc *Scn, w *world, r *lib.Rng) {
 	}
 }
 
-func applySubDefects(sc *Scn, w *world) {
+func applySubDefects(sc *Scn, w *world) { applySubDefectKind(sc, w, sc.Defect, false) }
+
+// applySubDefectKind applies the sublayout-level defect `kind` to the sublayout delivered by SubSigner (second: by SubSigner2)
+func applySubDefectKind(sc *Scn, w *world, kind string, second bool) {
 	for i := range sc.Steps {
 		st := sc.Steps[i]
 		if st.Sub == nil {
 			continue
 		}
 		kp := pk(st.SubSigner)
+		if second {
+			kp = pk(st.SubSigner2)
+		}
 		file := filepath.Join(w.linkDir, linkFile(st.Name, kp.Pub.KeyID))
 		subDir := filepath.Join(w.linkDir, fmt.Sprintf(intoto.SublayoutLinkDirFormat, st.Name, kp.Pub.KeyID))
-		switch sc.Defect {
+		switch kind {
 		case "sub-forged-link-first-use":
 			outsider := pk(sc.DefectArg)
 			for _, sst := range st.Sub.Steps {
@@ -1275,6 +1394,47 @@ func applyLayoutDefects(sc *Scn, w *world, r *lib.Rng) {
 		fake.KeyID = ownerID
 		if lm2, err := intoto.LoadMetadata(p); err == nil && !noPrime {
 			_ = lm2.VerifySignature(fake)
+		}
+	case "case-variant-member-evil-first", "case-variant-member-evil-last":
+		// the wrapper object carries its payload member twice, once under the exact name and once under a name that
+		// differs in letter case only (encoding/json matches struct fields case-insensitively, the last match wins):
+		// one holds the genuinely signed layout, the other an unsigned layout whose inspection command is another one.
+		// Whatever the loader makes of it, the unsigned layout must never be enforced.
+		raw, err := os.ReadFile(p)
+		must(err)
+		var members map[string]json.RawMessage
+		must(json.Unmarshal(raw, &members))
+		lm, err := intoto.LoadMetadata(p)
+		must(err)
+		lay := lm.GetPayload().(intoto.Layout)
+		lay.Inspect = append([]intoto.Inspection{}, lay.Inspect...)
+		lay.Inspect[0].Run = []string{"sh", "-c", "echo EVIL >> " + logPath}
+		evilJSON, _ := json.Marshal(lay)
+		exact, variant := "signed", "Signed"
+		evil := string(evilJSON)
+		if sc.Wrapper == "dsse" {
+			exact, variant = "payload", "Payload"
+			q, _ := json.Marshal(base64.StdEncoding.EncodeToString(evilJSON))
+			evil = string(q)
+		}
+		genuine := string(members[exact])
+		var parts []string
+		if sc.Defect == "case-variant-member-evil-first" {
+			parts = []string{fmt.Sprintf("%q: %s", exact, evil), fmt.Sprintf("%q: %s", variant, genuine)}
+		} else {
+			parts = []string{fmt.Sprintf("%q: %s", variant, evil), fmt.Sprintf("%q: %s", exact, genuine)}
+		}
+		for _, k := range lib.SortedKeys(members) {
+			if k != exact {
+				parts = append(parts, fmt.Sprintf("%q: %s", k, string(members[k])))
+			}
+		}
+		must(os.WriteFile(p, []byte("{"+strings.Join(parts, ", ")+"}"), 0o644))
+		if _, err := intoto.LoadMetadata(p); err != nil {
+			// refused by the loader: that is a rejection before anything is enforced; keep the genuine file so that the
+			// scenario still runs (class shows as accepted genuine layout)
+			must(os.WriteFile(p, raw, 0o644))
+			sc.DefectArg = "refused-by-loader: " + err.Error()
 		}
 	case "reorder-signatures":
 		editJSON(p, func(wr, pl map[string]interface{}) {
@@ -1460,6 +1620,9 @@ func historyOracle(sc *Scn, impl string) string {
 	parts := strings.Split(impl, ";")
 	for i, params := range sc.History {
 		want := "reject"
+		if sc.Expect == "reject" {
+			params = map[string]string{"never": "equal"}
+		}
 		a, _ := json.Marshal(params)
 		b, _ := json.Marshal(sc.Params)
 		if string(a) == string(b) || (len(params) == 0 && len(sc.Params) == 0) {
@@ -1788,7 +1951,7 @@ func main() {
 		}
 		for i := 0; i < n; i++ {
 			rr := r.Fork()
-			sc := genScenario(rr, focus)
+			sc := genScenario(rr, focus, i)
 			sc.Seed = lib.Seed()
 			root := filepath.Join(work, fmt.Sprintf("run-%d", i))
 			if sc.Defect == "direct-unclean" {
